@@ -313,6 +313,7 @@ func RunC06B(rep *report.Report, tier string, dl time.Time) {
 // announced (or none), server serviceable.
 func schedBody(code codes.Code, fails *[]mc.Fail) func() {
 	return func() {
+		*fails = nil // (an execution that the explorer cut at an already expanded state is not judged)
 		srv, err := server.New(server.WithVRFs([]string{V}))
 		if err != nil {
 			panic(err)
@@ -374,6 +375,10 @@ func childC10Sched(rep *report.Report, tier, part string) {
 	if res.EngineError != "" {
 		rep.EngineError("%s: %s", part, res.EngineError)
 	}
+	if res.CacheDiff != "" {
+		rep.Set("cache_selftest:"+part, res.CacheDiff)
+	}
+	rep.Add("pruned_at_visited_states", res.Pruned)
 	rep.Add("states", res.Execs)
 	rep.Add("transitions", res.Steps)
 	rep.Add("traces_validated_against_impl", res.Execs)
